@@ -369,6 +369,15 @@ class AsyncTunnelHTTPConnection(AsyncConnectionInterface):
         return self._connection.info()
 
     def is_available(self) -> bool:
+        if not self._connected:
+            # If HTTP/2 support is enabled, and the resulting connection could
+            # end up as HTTP/2 then we should indicate the connection as being
+            # available to service multiple requests.
+            return (
+                self._http2
+                and (self._remote_origin.scheme == b"https" or not self._http1)
+                and not self._connection.is_closed()
+            )
         return self._connection.is_available()
 
     def has_expired(self) -> bool:
